@@ -79,6 +79,12 @@ def run_case(case, ctx):
         conds = {c: codec.dec(v, sess) for c, v in cond['kw'].items()}
         if cond.get('as') == 'dict':
             args, kw = (dict(conds),), {}
+        elif cond.get('as') == 'split' and len(conds) >= 2:
+            ks = list(conds)
+            args, kw = ({k: conds[k] for k in ks[:1]},), {k: conds[k] for k in ks[1:]}       # one conjunction spread over a dict filter and keywords
+        elif cond.get('as') == 'two_dicts' and len(conds) >= 2:
+            ks = list(conds)
+            args, kw = ({k: conds[k] for k in ks[:1]}, {k: conds[k] for k in ks[1:]}), {}
         else:
             args, kw = (), conds
         sel = [all(match(r[c], v) for c, v in conds.items()) for r in rows]
@@ -127,6 +133,26 @@ def run_case(case, ctx):
                 ctx.check('find_unique', st5 == 'ok' and (got is distinct[0] or got == distinct[0]), lambda: 'find_%s -> %s %r, expected %r' % (fc, st5, got, distinct[0]))
             else:
                 ctx.check('find_unique', st5 == 'exc' and isinstance(got, ValueError), lambda: 'find_%s with %d distinct values -> %s %r (expected ValueError)' % (fc, len(distinct), st5, got))
+        if 'kw' in cond and n >= 2 and fc != 'id' and all(not isinstance(v, (dict, list)) and not isinstance(v, re.Pattern) for a in a5 for v in (a.values() if isinstance(a, dict) else [])):
+            # the same lookup on the same table after the looked-up column was reassigned in place: nothing remembered may leak
+            newcol = list(d[fc])[1:] + list(d[fc])[:1]
+            d[fc] = newcol
+            rows2 = [dict(r) for r in d]
+            conds2 = {c: codec.dec(v, sess) for c, v in cond['kw'].items()}
+            sel2 = [all(match(r[c], v) for c, v in conds2.items()) for r in rows2]
+            vals2 = [r[fc] for r, s_ in zip(rows2, sel2) if s_]
+            a7, k7 = fresh_args()
+            st7, got7 = ctx.call(getattr(d, 'find_' + fc), *a7, **k7)
+            if not any(_isnan(v) for v in vals2):
+                dist2 = []
+                for v in vals2:
+                    if not any(v is x or (v == x and hash(v) == hash(x)) for x in dist2):
+                        dist2.append(v)
+                if len(dist2) == 1:
+                    ctx.check('find_unique', st7 == 'ok' and (got7 is dist2[0] or got7 == dist2[0]), lambda: 'find_%s repeated after the column was reassigned -> %s %r, expected %r' % (fc, st7, got7, dist2[0]))
+                else:
+                    ctx.check('find_unique', st7 == 'exc' and isinstance(got7, ValueError), lambda: 'find_%s repeated after the column was reassigned: %d distinct values -> %s %r (expected ValueError)' % (fc, len(dist2), st7, got7))
+            d[fc] = [r[fc] for r in rows]
         a6, k6 = fresh_args()
         st6, one = ctx.call(d.one_or_none, *a6, **k6)
         if len(exp_inc) == 0:
@@ -172,7 +198,11 @@ def gen_case(rng):
                 if isinstance(v, dict):
                     v = {'$nan': 7}
             elif t < 0.5:
-                v = [x for x in (pick() for _ in range(rng.randint(1, 3))) if not isinstance(x, dict)] or [1]
+                v = [x for x in (pick() for _ in range(rng.choice([1, 2, 3, 9, 12]))) if not isinstance(x, dict)] or [1]
+                v = [x for i, x in enumerate(v) if not any(x == y and type(x) is type(y) for y in v[:i])]
+                if len(v) >= 5:
+                    v = v + [7, 8, 9, 'q', 'w', 'e', 5.5, 6.5][:max(0, 10 - len(v))]
+                    rng.shuffle(v)
             elif t < 0.65:
                 v = None
             elif t < 0.8:
@@ -180,7 +210,7 @@ def gen_case(rng):
             else:
                 v = {'$re': rng.choice(['x', 'y', '1', 'n', '.*', '^$', 'o', '2', '\\.'])}
             kw[c] = v
-        cond = {'kw': kw, 'as': rng.choice(['kw', 'kw', 'dict'])}
+        cond = {'kw': kw, 'as': rng.choice(['kw', 'kw', 'dict', 'split', 'two_dicts'])}
     case = {'cols': cols, 'cond': cond}
     if rng.random() < 0.6:
         case['find'] = rng.choice(names + ['id'])
